@@ -26,6 +26,7 @@ const (
 	Commit     Kind = "commit"      // before the real commit
 	CommitDone Kind = "commit-done" // after the real commit succeeded
 	Rollback   Kind = "rollback"
+	QueryDone  Kind = "query-done" // a query issued OUTSIDE a transaction has been read completely (rows closed)
 )
 
 // Event describes one interaction with the database.
@@ -139,7 +140,26 @@ func (c *conn) QueryContext(ctx context.Context, q string, args []driver.NamedVa
 	if err := fire(c.actor(ctx), Query, q, c.inTx); err != nil {
 		return nil, err
 	}
-	return c.c.QueryContext(ctx, q, args)
+	r, err := c.c.QueryContext(ctx, q, args)
+	if err != nil || c.inTx {
+		return r, err
+	}
+	return &rows{Rows: r, actor: c.actor(ctx), q: q}, nil
+}
+
+// rows reports the end of a non-transactional read (the point after which the reader acts on what
+// it saw): a gate may park the reader there.
+type rows struct {
+	driver.Rows
+	actor string
+	q     string
+	once  sync.Once
+}
+
+func (r *rows) Close() error {
+	err := r.Rows.Close()
+	r.once.Do(func() { _ = fire(r.actor, QueryDone, r.q, false) })
+	return err
 }
 
 type tx struct {
